@@ -80,6 +80,22 @@ fu('wait_for_two', ['SET(42)', 'WAITFOR(1)', 'WAITFOR(2)'], props={'assert': 'C0
 fu('wait_for_unset', ['WAITFOR(0)'], props={'assert': 'C08'}, opts=dict(TOPT, spurious='1'), extra=[TO])
 S('fu_latch', 'future/latch.cpp', FUP)
 
+# ----------------------------------------------------------------------------------------------- C14: id allocator / deposit box
+def ida(name, ts, extra=(), **kw):
+    S('id_' + name, 'idalloc/ida.cpp', {'assert': 'C14'}, defs=['VF_T%d=%s' % (i, t) for i, t in enumerate(ts)] + list(extra), **kw)
+ida('aba', ['ALLOC(0);ALLOC(1)', 'ALLOC_ALLOC_FREE_FIRST(0)'])
+ida('aba_reuse', ['ALLOC(0);SIGNAL(0)', 'ALLOC_ALLOC_FREE_FIRST(0);SIGNAL(1)', 'REUSE_CHECK()'])
+ida('alloc_free_race', ['ALLOC(0);ALLOC_THEN_FREE();SIGNAL(0)', 'ALLOC_THEN_FREE();ALLOC(0);SIGNAL(1)', 'REUSE_CHECK()'])
+ida('mint_race', ['ALLOC(0);ALLOC(1)', 'ALLOC(0);ALLOC(1)'], extra=['VF_PREFREE=1'])
+ida('three', ['ALLOC(0)', 'ALLOC_ALLOC_FREE_FIRST(0)', 'ALLOC_THEN_FREE()'], tiers=('thorough',))
+S('id_history', 'idalloc/hist.cpp', {'assert': 'C14'}, defs=['VF_K=4'], models=['sc'], bound={'quick': 8, 'thorough': 12})
+def box(name, ts, final, extra=(), **kw):
+    S('box_' + name, 'idalloc/box.cpp', {'assert': 'C14'}, defs=['VF_T%d=%s' % (i, t) for i, t in enumerate(ts)] + ['VF_FINAL=' + final] + list(extra), **kw)
+box('two_takers', ['TAKE(id0)', 'TAKE(id0)'], 'vf_check(won[0]+won[1]==1, 1); vf_check(val[0]+val[1]==42, 1)')
+box('three_takers', ['TAKE(id0)', 'TAKE_RELEASED(id0)', 'TAKE(id0)'], 'vf_check(won[0]+won[1]+won[2]==1, 1); vf_check(val[0]+val[1]+val[2]==42, 1)')
+box('stale_never_matches', ['TAKE(stale)', 'TAKE(id0)'], 'vf_check(won[0]==0, 3); vf_check(won[1]==1 && val[1]==42, 1)')
+box('stale_vs_recycle', ['TAKE(stale)', 'TAKE(id0);EMPLACE_NEW(43);TAKE(idnew)', 'TAKE(stale)'], 'vf_check(won[0]==0 && won[2]==0, 3)')
+
 # ----------------------------------------------------------------------------------------------- manifest texts
 LEVEL_TEXT = {
  'C01': 'Real ConcurrentBoundedQueue<two-word payload, VS> IR; client programs of 2-4 threads mixing push/pop/try_/push_n/pop_n/callback variants on capacities 1-2; oracle = exactly-once multiset, per-thread FIFO, fully published payload, try_ success when sequenced after enough completed operations.',
@@ -90,7 +106,6 @@ TECH_EXTRA = {}
 NOT_APPLICABLE = {}
 
 # ----------------------------------------------------------------------------------------------- prototypes (to be enriched)
-S('id_basic', 'idalloc/id2.cpp', {'assert': 'C14'})
 S('rl_basic', 'vector/rl1.cpp', {'assert': 'C04'})
 S('ht_same_key', 'hashtable/ht1.cpp', {'assert': 'C03'})
 S('ht_find', 'hashtable/ht2.cpp', {'assert': 'C03'})
